@@ -8,6 +8,7 @@ import (
 	"sort"
 	"strings"
 
+	"google.golang.org/protobuf/compiler/protogen"
 	"google.golang.org/protobuf/reflect/protoreflect"
 
 	"csverify/core"
@@ -66,6 +67,7 @@ func checkC08(r *core.Result) {
 	}
 	nArms := 0
 	reach := map[string]bool{}
+	depthBound := decoderTracksDepth()
 	for _, u := range ex.Units {
 		if u.Pkg == nil || len(u.TypeErrors) > 0 {
 			continue
@@ -74,6 +76,12 @@ func checkC08(r *core.Result) {
 		for _, mc := range messagesOf(u) {
 			if mc.unmarshal == nil {
 				continue
+			}
+			// T-depth: a message type that can contain itself is decoded by mutual recursion
+			// (Unmarshal → DecodeNested → Unmarshal …), one Go stack frame chain per nesting level of the INPUT.
+			if selfRecursive(mc.desc) {
+				r.GroupOb("T-depth", "recursive message types are decoded under a nesting limit", mc.name(), mc.pos(ex, mc.unmarshal.Pos()), depthBound,
+					"Unmarshal of a self-recursive message type recurses once per nesting level of the input and neither the generated code nor csproto.Decoder bounds the depth: an input nested a few million levels deep (about 14 MB) exhausts the goroutine stack, which is a fatal error the caller cannot recover from")
 			}
 			us := dissectUnmarshal(info, mc)
 			if us == nil || us.sw == nil {
@@ -362,4 +370,62 @@ func nestedContext(parents map[ast.Node]ast.Node, c ast.Node) string {
 		}
 	}
 	return "singular field / extension"
+}
+
+// selfRecursive: the message can (transitively) contain a value of its own type.
+func selfRecursive(m *protogen.Message) bool {
+	seen := map[string]bool{}
+	var walk func(x *protogen.Message) bool
+	walk = func(x *protogen.Message) bool {
+		for _, f := range x.Fields {
+			if f.Message == nil {
+				continue
+			}
+			if f.Message.Desc.FullName() == m.Desc.FullName() {
+				return true
+			}
+			k := string(f.Message.Desc.FullName())
+			if seen[k] {
+				continue
+			}
+			seen[k] = true
+			if walk(f.Message) {
+				return true
+			}
+		}
+		return false
+	}
+	return walk(m)
+}
+
+// decoderTracksDepth: csproto.Decoder (or DecodeNested) carries a nesting counter / limit.
+func decoderTracksDepth() bool {
+	prog, err := core.Load("./")
+	if err != nil {
+		return false
+	}
+	root := prog.Pkg("")
+	found := false
+	isDepthName := func(n string) bool {
+		l := strings.ToLower(n)
+		return strings.Contains(l, "depth") || strings.Contains(l, "recursion") || strings.Contains(l, "nestlevel") || strings.Contains(l, "nesting")
+	}
+	if obj := root.Types.Scope().Lookup("Decoder"); obj != nil {
+		if st, ok := obj.Type().Underlying().(*types.Struct); ok {
+			for i := 0; i < st.NumFields(); i++ {
+				if isDepthName(st.Field(i).Name()) {
+					found = true
+				}
+			}
+		}
+	}
+	if f := core.FindFunc(root, "(*Decoder).DecodeNested"); f != nil && f.Decl != nil {
+		ast.Inspect(f.Decl.Body, func(n ast.Node) bool {
+			if id, ok := n.(*ast.Ident); ok && isDepthName(id.Name) {
+				found = true
+			}
+			return true
+		})
+	}
+	return found
 }
